@@ -577,6 +577,28 @@ impl CellBuffer {
     }
 }
 
+/// read-only accessors for the external verification harness
+#[cfg(feature = "verif-hooks")]
+impl CellBuffer {
+    pub fn verif_css_styles(&self) -> &Vec<(String, String)> {
+        &self.css_styles
+    }
+
+    pub fn verif_escaped_text(&self) -> &Vec<(Cell, String)> {
+        &self.escaped_text
+    }
+
+    pub fn verif_legend_css(&self) -> String {
+        self.legend_css()
+    }
+
+    /// (accepted fragments, rejected contact groups), unscaled
+    pub fn verif_endorse(&self) -> (Vec<FragmentSpan>, Vec<Vec<FragmentSpan>>) {
+        let Endorse { accepted, rejects } = self.endorse_to_fragment_spans();
+        (accepted, rejects)
+    }
+}
+
 impl fmt::Display for CellBuffer {
     fn fmt(&self, f: &mut fmt::Formatter) -> fmt::Result {
         writeln!(f, "CellBuffer dump..")?;
